@@ -6,7 +6,8 @@ E2-style exploration over stream histories: a history is a sequence of events fr
   dB   extends: element e3 (code table), sequence s2 = [1 01 002, e1, e3], sequence s3 = [1 01 000, 031001, e2]
   dB'  REDEFINES e1 (other width / scale / reference)
   dN   NCEP idiom: 3 60 001 = [1 01 000, 031002] (replication-only: replicates what follows the sequence) and
-       3 60 002 = [3 60 001, e4, 3 60 001, 001001] (the idiom used twice inside one defined sequence)
+       3 60 002 = [3 60 001, e4, 3 60 001, 001001] (the idiom used twice inside one defined sequence), the latter in a
+       continuation message of its own that has no Table A and no Table B entries
   d0   a definition message with 0 subsets (defines nothing)
   xA xB xS xM xN  data messages over s1+e1 / s2+s3+e3 / standard descriptors / a mix / the NCEP idiom
 concatenated into ONE byte stream and scanned by generate_bufr_message (continue_on_error) after the
@@ -59,11 +60,20 @@ def definitions(ev, e1def):
     if ev == "dB'":
         return ([], [(E1, 'FIRST NEW ELEMENT REDEFINED', 'NUMERIC', 2, 5, 16)], [])
     if ev == 'dN':
-        return ([], [(E4, 'FOURTH NEW ELEMENT', 'NUMERIC', 0, -5, 9)],
-                [(SN, 'REPLICATION ONLY', [101000, 31002]), (SN2, 'USES IT TWICE', [SN, E4, SN, 1001])])
+        return ([], [(E4, 'FOURTH NEW ELEMENT', 'NUMERIC', 0, -5, 9)], [(SN, 'REPLICATION ONLY', [101000, 31002])])
+    if ev == 'dN+':
+        # a continuation message: no Table A and no Table B entries, only a sequence over what is already defined
+        return ([], [], [(SN2, 'USES IT TWICE', [SN, E4, SN, 1001])])
     if ev == 'd0':
         return ([], [(E1, 'MUST NOT BE DEFINED', 'NUMERIC', 0, 0, 3)], [])
     raise ValueError(ev)
+
+
+def definition_parts(ev, e1def):
+    """the definition messages an event stands for (dN = the idiom + a continuation message without B entries)"""
+    if ev == 'dN':
+        return [definitions('dN', e1def), definitions('dN+', e1def)]
+    return [definitions(ev, e1def)]
 
 
 DATA = {'xA': [S1, E1], 'xB': [S2, S3, E3], 'xS': [1001, 5002, 301001], 'xM': [1001, E1, S1, 5002], 'xN': [SN, E4, 1001, SN2, E1]}
@@ -76,13 +86,13 @@ def build_stream(hist, e1def):
     items = []
     for k, ev in enumerate(hist):
         if ev[0] == 'd':
-            a, b, d = definitions(ev, e1def)
-            if ev == 'd0':
-                m = ncep.build_definition(a, b, d, nsub=0)
-            else:
-                m = ncep.build_definition(a, b, d)
-                B, D = ncep.apply_definitions(B, D, b, d)
-            items.append((ev, m, 'def'))
+            for a, b, d in definition_parts(ev, e1def):
+                if ev == 'd0':
+                    m = ncep.build_definition(a, b, d, nsub=0)
+                else:
+                    m = ncep.build_definition(a, b, d)
+                    B, D = ncep.apply_definitions(B, D, b, d)
+                items.append((ev, m, 'def'))
             continue
         descs = DATA[ev]
         cnt = [0]
@@ -120,11 +130,11 @@ def abstract_state(hist, e1def):
     B, D = {}, {}
     for ev in hist:
         if ev[0] == 'd' and ev != 'd0':
-            a, b, d = definitions(ev, e1def)
-            for row in b:
-                B[row[0]] = row[2:]
-            for row in d:
-                D[row[0]] = tuple(row[2])
+            for a, b, d in definition_parts(ev, e1def):
+                for row in b:
+                    B[row[0]] = row[2:]
+                for row in d:
+                    D[row[0]] = tuple(row[2])
     return (tuple(sorted(B.items())), tuple(sorted(D.items())))
 
 
